@@ -51,7 +51,8 @@ func c13Setup(t *testing.T) {
 	specs := [2][2]string{{"192.0.2.0/24", "2001:db8:a::/48"}, {"198.51.100.0/24", "2001:db8:b::/48"}}
 	for i, sp := range specs {
 		p := filepath.Join(dir, fmt.Sprintf("c13_subnets_%d.toml", i))
-		body := fmt.Sprintf("[Networks]\n  [Networks.1]\n    Generation = 1\n    [[Networks.1.WeightedSubnets]]\n      Weight = 1\n      RandomizeDstPort = true\n      Subnets = [%q, %q]\n", sp[0], sp[1])
+		body := fmt.Sprintf("[Networks]\n  [Networks.1]\n    Generation = 1\n    [[Networks.1.WeightedSubnets]]\n      Weight = 1\n      RandomizeDstPort = true\n      Subnets = [%q, %q]\n"+
+			"  [Networks.2]\n    Generation = 2\n    [[Networks.2.WeightedSubnets]]\n      Weight = 1\n      RandomizeDstPort = true\n      Subnets = [%q]\n", sp[0], sp[1], sp[0])
 		if err := os.WriteFile(p, []byte(body), 0o644); err != nil {
 			t.Fatal(err)
 		}
@@ -81,6 +82,10 @@ var c13Small = []struct {
 	{[]int{2}, []int{1}},
 	{[]int{2, 0}, []int{2, 0}},
 	{[]int{0}, []int{1, 1}},
+	{[]int{3}, []int{0}},
+	{[]int{3, 2}, []int{0}},
+	{[]int{4, 0}, []int{0}},
+	{[]int{5, 3}, []int{0, 1}},
 }
 
 var c13BadFiles [2]string
@@ -126,7 +131,7 @@ func c13Scenario(r *sim.Run) {
 	} else {
 		n := 1 + tp.Choose("nreq", 3)
 		for i := 0; i < n; i++ {
-			reqs = append(reqs, tp.Choose("kind", 3))
+			reqs = append(reqs, []int{0, 1, 2, 2, 3, 4, 5}[tp.Choose("kind", 7)])
 		}
 		nr := tp.Choose("nreload", 4)
 		for i := 0; i < nr; i++ {
@@ -175,6 +180,11 @@ func c13Scenario(r *sim.Run) {
 	outs := make([]out, len(reqs))
 	reloadDone := make([]bool, reloads)
 	reloadErr := make([]error, reloads)
+	// request kinds: 0 = IPv4 only, 1 = IPv6 only, 2 = dual stack (generation 1, both families
+	// configured); requests that the registrar must REJECT, and that must not leave anything
+	// behind: 3 = dual stack on generation 2 (no IPv6 subnets: the IPv6 selection fails after the
+	// IPv4 one succeeded), 4 = IPv6 only on an unknown generation, 5 = IPv4 only on an unknown generation
+	failing := func(kind int) bool { return kind >= 3 }
 	mkReq := func(i, kind int) *pb.C2SWrapper {
 		secret := make([]byte, 32)
 		for j := range secret {
@@ -183,10 +193,10 @@ func c13Scenario(r *sim.Run) {
 		tt := pb.TransportType_Min
 		c2s := &pb.ClientToStation{
 			Transport:           &tt,
-			DecoyListGeneration: proto.Uint32(1),
+			DecoyListGeneration: proto.Uint32(map[int]uint32{3: 2, 4: 9, 5: 9}[kind] + map[bool]uint32{true: 0, false: 1}[kind >= 3]),
 			CovertAddress:       proto.String("203.0.113.9:443"),
-			V4Support:           proto.Bool(kind != 1),
-			V6Support:           proto.Bool(kind != 0),
+			V4Support:           proto.Bool(kind != 1 && kind != 4),
+			V6Support:           proto.Bool(kind != 0 && kind != 5),
 			ClientLibVersion:    proto.Uint32(core.CurrentClientLibraryVersion()),
 		}
 		return &pb.C2SWrapper{SharedSecret: secret, RegistrationPayload: c2s}
@@ -236,7 +246,22 @@ func c13Scenario(r *sim.Run) {
 		}
 		return -1
 	}
+	nOK := 0
 	for i, o := range outs {
+		if failing(reqs[i]) {
+			if !o.done {
+				r.Fail("C13/request-not-finished", "request %d (kind %d) did not return", i, reqs[i])
+				return
+			}
+			if o.err == nil {
+				// which set is in force decides nothing here: generation 2 has no IPv6 in either file, generation 9 exists in neither
+				r.Fail("C13/unservable-request-accepted", "request %d (kind %d: no phantom can be selected) was answered without error", i, reqs[i])
+				return
+			}
+			r.Probe("request_rejected_by_selection")
+			continue
+		}
+		nOK++
 		if !o.done || o.err != nil || o.resp == nil {
 			r.Fail("C13/request-failed", "request %d (kind %d): done=%v err=%v", i, reqs[i], o.done, o.err)
 			return
@@ -283,9 +308,9 @@ func c13Scenario(r *sim.Run) {
 			return
 		}
 	}
-	if len(sock.msgs) != len(reqs) {
+	if len(sock.msgs) != nOK {
 		_ = reloads
-		r.Fail("C13/forward-count", "%d requests but %d messages forwarded to the stations", len(reqs), len(sock.msgs))
+		r.Fail("C13/forward-count", "%d answered requests but %d messages forwarded to the stations", nOK, len(sock.msgs))
 		return
 	}
 	// after everything completed: a further request and a further reload must still be served
